@@ -112,8 +112,8 @@ def rows_match(got_rows, ref):
             if kind == 'exact':
                 if not refsem.same_value(gv, xv):
                     return False
-            elif kind == 'float':
-                scale = max(1, abs(xv))
+            elif kind == 'float' or kind.startswith('float@'):
+                scale = max(1, abs(xv), int(kind[6:]) if kind.startswith('float@') else 0)
                 if isinstance(gv, bool) or not isinstance(gv, (int, float)) or gv != gv:
                     return False
                 if not refsem.same_value(gv, xv, tol=scale * refsem.Fraction(1, 10 ** 9)):
@@ -257,6 +257,14 @@ def neutral_query(q):
         qast.is_neutral(it.get('expr')) and qast.is_neutral(it.get('arg')) for it in q.get('items', []))
 
 
+JS_NOISE_QUERIES = [
+    'update a1 = 1, a["no such column"] = 2', 'update a1 = 1, a2 = 2, a["nope"] = 3 where a1 == a1', 'update b1 = 1, a2 = 2', 'update a1 = 1, a9999 = 2', 'update a1 = a2 order by a1', 'update a1 == 2',
+    'select a1 +', 'select a["no such column"]', 'select a.no_such_column, a1', 'select a1 where a2 = 1', 'select a1, count(*) order by a1', 'select unnest([1]), unnest([2])',
+    'select a1 join zz on a1 == b1', 'select a1 join b on a9999 == b1', 'select * except a["nope"]', 'select a1 as x, *', 'select top x a1', 'select distinct count a1, count(*)',
+    'select a1, max(a2) group by a1 order by a1', 'select [1][5].foo', 'select like(a1)', 'select a1 strict left join b on a1 == b1', 'select a1 where', 'select',
+]
+
+
 class JsLeg(object):
     """Batches the language-neutral cases of a shard for the node driver and compares them with the same reference."""
 
@@ -275,6 +283,11 @@ class JsLeg(object):
             return
         if not js_supported(case):
             return
+        # history: a third of the compared cases are preceded, in the same node process, by a deliberately failing query on the same tables
+        # (the result of a query must not depend on what ran - and failed - before it)
+        h = zlib.crc32(repr(case.get('q')).encode('utf-8', 'surrogatepass'))
+        if h % 3 == 0:
+            self.pending.append(({'noise': JS_NOISE_QUERIES[(h // 3) % len(JS_NOISE_QUERIES)], 'A': case['A'], 'B': case['B'], 'a_names': case['a_names'], 'b_names': case['b_names']}, None, False))
         self.pending.append((case, ref, check_header))
         if len(self.pending) >= 400:
             self.flush()
@@ -291,9 +304,14 @@ class JsLeg(object):
                 self.res.notes.append('js_leg: unavailable (no node)')
                 self.pending = []
                 return
-        reqs = [js_request(c) for c, _r, _h in self.pending]
+        reqs = [js_request(c) if 'noise' not in c else {'query': c['noise'], 'input': [list(r) for r in c['A']], 'join': None if c['B'] is None else [list(r) for r in c['B']], 'input_cols': c['a_names'], 'join_cols': c['b_names']}
+                for c, _r, _h in self.pending]
         outs = self.node.call({'op': 'query_batch', 'cases': reqs})['results']
         for (case, ref, check_header), o in zip(self.pending, outs):
+            if 'noise' in case:
+                self.res.count('js_history_noise_queries')
+                self.res.count('js_history_noise_queries_failing' if o['error'] else 'js_history_noise_queries_succeeding')
+                continue
             self.res.evaluations += 1
             self.res.count('js_cases')
             if self.compare_results:
@@ -318,7 +336,7 @@ class JsLeg(object):
 def js_supported(case):
     """Cases inside the language-neutral fragment, on data where the two host languages mean the same."""
     q = case['q']
-    if not neutral_query(q):
+    if not neutral_query(q) or case.get('py_only'):
         return False
     # a.name must not be a JS reserved word etc. - the generator only produces attr_safe names
     return True
